@@ -33,18 +33,18 @@ var c16Sources = map[string]string{
 	"plain.p": "x = 1\nfor i in [1, 2] { x = x + i }\nadd_key(k, x)\nset_tag(t, \"v\")\np(x)\n",
 	"grok.p":  "add_pattern(\"wd\", \"[a-z]+\")\nok = grok(_, \"%{wd:w} %{INT:n:int}\")\nadd_key(ok)\nif ok { p(w, n) }\n",
 	"use.p":   "p(0)\nuse(\"plain.p\")\nuse(\"grok.p\")\np(1)\n",
-	"loop.p":  "n = 0\nfor j = 0; j < 5; j = j + 1 { n = n + j\nif n > 3 { continue } }\nadd_key(n)\nl = [1, 2, 3]\nl[0] = n\ng = [[0, 0], [1]]\ng[0][0] += n\nmm = {\"k\": [0]}\nmm[\"k\"][0] += 1\np(l[0:2], {\"a\": l}, g, mm)\n",
+	"loop.p":  "n = 0\nfor j = 0; j < 5; j = j + 1 { n = n + j\nif n > 3 { continue } }\nadd_key(n)\nl = [1, 2, 3]\nl[0] = n\ng = [[0, 0], [1]]\ng[0][0] += n\nmm = {\"k\": [0]}\nmm[\"k\"][0] += 1\np(l[0:2], {\"a\": l}, g, mm)\ndefault_time(ts, \"America/New_York\")\nreplace(message, \"h(e)\", \"$1\")\n",
 	"all.p": "add_key(a1, 1)\nrename(a2, a1)\ncast(a2, \"str\")\nuppercase(message)\ntrim(message)\nreplace(message, \"L+\", \"l\")\nurl_decode(message)\nstrfmt(s1, \"%v-%d\", a2, 3)\n" +
-		"set_measurement(\"mm\")\ndrop_key(a2)\nj = load_json(\"[1, {\\\"a\\\": 2}]\")\np(len(j), j[1][\"a\"], get_key(s1))\nxml(xm, \"/a/b\", xb)\nsql_cover(sq)\ndatetime(ep, \"s\", \"RFC3339\")\ndefault_time(ts)\n" +
+		"set_measurement(\"mm\")\ndrop_key(a2)\nj = load_json(\"[1, {\\\"a\\\": 2}]\")\np(len(j), j[1][\"a\"], get_key(s1))\nxml(xm, \"/a/b\", xb)\nsql_cover(sq)\ndatetime(ep, \"s\", \"RFC3339\")\ndefault_time(ts, \"Asia/Shanghai\")\ndefault_time(ts2)\n" +
 		"if \"a\" in \"abc\" && 1 in [1] { p(-1 % 2 == -1) }\n",
 }
 
-var c16ParseSrc = "a = [1, 2, {\"k\": `q r`}]\nif a[0] == 1 && !b { f(a.b, x=1) } elif c { for i in a { break } } else { s = \"\\x41\\u00e9\" + 'b' + \"\"\"m\"\"\" }\nx = a[1:2:1]\n"
+var c16ParseSrc = "a = [1, 2, {\"k\": `q r`}]\nif a[0] == 1 && !b { f(a.b, x=1) } elif c { for i in a { break } } else { s = \"\\x41\\u00e9\" + 'b' + \"\"\"m\"\"\" }\nx = a[1:2:1]\nIf TRUE { y = Nil } ELIF False { Continue } Else { For q IN a { Break } }\n"
 var c16BadSrc = "a = (1 +\n\"unterminated\nb = -0x\n"
 
 func c16Point(slot int) PointSpec {
 	return PointSpec{Meas: fmt.Sprintf("m%d", slot), Tags: map[string]string{"t0": "tv"}, Fields: map[string]any{
-		"message": fmt.Sprintf("hello %d", 40+slot), "xm": "<a><b>7</b></a>", "sq": "select * from t where id = 5", "ep": int64(1600000000), "ts": "2021-01-02 03:04:05"}, Time: int64(slot)}
+		"message": fmt.Sprintf("hello %d", 40+slot), "xm": "<a><b>7</b></a>", "sq": "select * from t where id = 5", "ep": int64(1600000000), "ts": "2021-01-02 03:04:05", "ts2": "2021-03-04 05:06:07"}, Time: int64(slot)}
 }
 
 func c16Ops() []c16Op {
